@@ -301,8 +301,85 @@ def gen_config(rng: random.Random, index: int, schema: Dict[str, Any], custom_op
 # ------------------------------------------------------------------------------------------------
 
 
+# the directive main.client injects into every schema (schema.py add_mixin_directive_to_schema): part of what
+# "valid against the schema" means for the documents ariadne-codegen accepts
+MIXIN_SDL = "\ndirective @mixin(from: String, import: String) repeatable on FIELD | FRAGMENT_DEFINITION\n"
+EXTRACT_OPS = "ariadne_codegen.contrib.extract_operations.ExtractOperationsPlugin"
+QUOTE_LITERALS = ['"it\'s"', '"a \'quoted\' word"']
+BLOCK_LITERALS = ['"""block"""', '"""two\n  lines"""']
+HARMLESS_LITERALS = ['"plain"', '"two words"', '""']
+
+
+def _composite_fields(sel: List[Dict[str, Any]], out: List[Dict[str, Any]]) -> None:
+    for s in sel:
+        if s["k"] == "field" and s.get("sel"):
+            out.append(s)
+        if s["k"] != "spread":
+            _composite_fields(s.get("sel", []), out)
+
+
+def add_mixins(doc: Dict[str, Any], rng: random.Random, p: float, malformed_p: float) -> Dict[str, bool]:
+    """`@mixin(from:, import:)` on composite fields / fragment definitions / operations' fields (documented feature);
+    `malformed_p`: an argument is missing or null - one of the four documented refusals"""
+    used = {"mixin": False, "malformed": False}
+    spots: List[Dict[str, Any]] = []
+    for o in doc["operations"]:
+        _composite_fields(o["sel"], spots)
+    for f in doc["fragments"]:
+        _composite_fields(f["sel"], spots)
+        spots.append(f)
+    for s in spots:
+        if rng.random() >= p:
+            continue
+        d: Dict[str, Any] = {"name": "mixin", "from": ".extra_helpers", "import": "CommonMixin"}
+        if rng.random() < malformed_p:
+            d["malformed"] = rng.choice(["no-import", "no-from", "null"])
+            used["malformed"] = True
+        s.setdefault("dirs", []).append(d)
+        used["mixin"] = True
+    return used
+
+
+def literal_arguments(doc: Dict[str, Any], rng: random.Random, p: float, quote_p: float, block_p: float) -> None:
+    """replace a String variable that is used exactly once (as a field argument of the operation itself) by a literal"""
+    frag_vars = set()
+    for f in doc["fragments"]:
+        frag_vars |= ops_gen.used_variables(f["sel"], {})
+
+    def uses(sel: List[Dict[str, Any]], name: str, acc: List[Dict[str, Any]], other: List[int]) -> None:
+        for s in sel:
+            for d in s.get("dirs", []):
+                if d.get("var") == name:
+                    other.append(1)
+            if s["k"] == "field":
+                for a in s.get("args", []):
+                    if a.get("var") == name:
+                        acc.append(a)
+            if s["k"] != "spread":
+                uses(s.get("sel", []), name, acc, other)
+
+    for o in doc["operations"]:
+        for v in list(o["vars"]):
+            if schema_gen.unwrap(v["type"]) != "String" or any(x == "list" for x in _wrappers(v["type"])) or v["name"] in frag_vars:
+                continue
+            if rng.random() >= p:
+                continue
+            acc: List[Dict[str, Any]] = []
+            other: List[int] = []
+            uses(o["sel"], v["name"], acc, other)
+            if len(acc) != 1 or other:
+                continue
+            r = rng.random()
+            lit = rng.choice(QUOTE_LITERALS) if r < quote_p else rng.choice(BLOCK_LITERALS) if r < quote_p + block_p else rng.choice(HARMLESS_LITERALS)
+            acc[0]["var"] = None
+            acc[0]["lit"] = lit
+            o["vars"] = [x for x in o["vars"] if x is not v]
+
+
 def make_case(seed: Any, index: int = 0, *, name_p: float = 0.25, stress_p: float = 0.0, features: Optional[Dict[str, float]] = None,
-              n_ops: int = 3, custom_ops_p: float = 0.15, subscription_p: float = 0.25) -> Optional[Dict[str, Any]]:
+              n_ops: int = 3, custom_ops_p: float = 0.15, subscription_p: float = 0.25, mixin_p: float = 0.0, malformed_mixin_p: float = 0.0,
+              literal_p: float = 0.0, quote_p: float = 0.0, block_p: float = 0.0, anonymous_p: float = 0.0,
+              extract_ops_p: float = 0.0) -> Optional[Dict[str, Any]]:
     """A valid (schema, document) pair with a configuration; None when the draw is not valid GraphQL.
     `stress_p` = 0: names stay inside the region where no naming defect is known (harmless look-alikes only)."""
     from graphql import build_schema, parse, validate
@@ -314,20 +391,65 @@ def make_case(seed: Any, index: int = 0, *, name_p: float = 0.25, stress_p: floa
         rename_types(s, rng, stress_p)
     sdl = schema_gen.to_sdl(s)
     try:
-        gs = build_schema(sdl)
+        gs = build_schema(sdl + MIXIN_SDL)
     except Exception:
         return None
     kinds = ("query", "mutation", "subscription") if s.get("subscription") else ("query", "mutation")
-    doc = ops_gen.gen_document(s, rng, n_ops=n_ops, features=features, kinds=kinds)
+    anonymous = rng.random() < anonymous_p
+    doc = ops_gen.gen_document(s, rng, n_ops=1 if anonymous else n_ops, features=features, kinds=kinds)
     if not doc["operations"]:
         return None
     stress_document(doc, rng, name_p, stress_p)
-    text = ops_gen.render_document(doc)
+    if literal_p:
+        literal_arguments(doc, rng, literal_p, quote_p, block_p)
+    mix = add_mixins(doc, rng, mixin_p, malformed_mixin_p) if mixin_p else {"mixin": False, "malformed": False}
+    if anonymous:
+        doc["operations"][0]["name"] = ""
+    text = render_with_mixins(doc)
     try:
         if validate(gs, parse(text)):
             return None
     except Exception:
         return None
     c = gen_config(rng, index, s, custom_ops_p)
+    if mix["mixin"] and "extra_helpers.py" not in c["config"].get("files_to_include", []):
+        c["config"].setdefault("files_to_include", []).append("extra_helpers.py")
+        c["extra_files"]["extra_helpers.py"] = EXTRA_FILE
+    if rng.random() < extract_ops_p:
+        c["config"]["plugins"] = [EXTRACT_OPS]
     return {"seed": str(seed), "sdl": sdl, "queries": text, "config": c["config"], "extra_files": c["extra_files"],
-            "features": dict(features or {}), "stress": stress_p}
+            "features": dict(features or {}), "stress": stress_p,
+            "draw": {"mixin": mix["mixin"], "malformed_mixin": mix["malformed"], "anonymous": anonymous}}
+
+
+def render_with_mixins(doc: Dict[str, Any]) -> str:
+    """ops_gen.render_document, with the malformed `@mixin` variants rendered as drawn"""
+    text = ops_gen.render_document(doc)
+    full = '@mixin(from: ".extra_helpers", import: "CommonMixin")'
+    if full not in text:
+        return text
+    variants: List[str] = []
+
+    def collect(sel: List[Dict[str, Any]]) -> None:
+        for s in sel:
+            if s["k"] == "field":
+                variants.extend(d.get("malformed", "") for d in s.get("dirs", []) if d["name"] == "mixin")
+            if s["k"] != "spread":
+                collect(s.get("sel", []))
+
+    # the order in which render_document meets the directives: operations (depth first), then per fragment the
+    # definition's own directives before its body
+    for o in doc["operations"]:
+        collect(o["sel"])
+    for f in doc["fragments"]:
+        variants.extend(d.get("malformed", "") for d in f.get("dirs", []) if d["name"] == "mixin")
+        collect(f["sel"])
+    parts = text.split(full)
+    if len(parts) != len(variants) + 1:
+        return text
+    alt = {"": full, "no-import": '@mixin(from: ".extra_helpers")', "no-from": '@mixin(import: "CommonMixin")',
+           "null": '@mixin(from: null, import: "CommonMixin")'}
+    out = parts[0]
+    for v, rest in zip(variants, parts[1:]):
+        out += alt[v] + rest
+    return out
